@@ -429,7 +429,7 @@ func init() {
 	})
 	sim.Register(&sim.Prop{
 		ID: "C17", Engine: "E-WORLD", Level: "exploration", Fn: runC17, NewEnv: NewEnv,
-		Runs: map[string]int{"quick": 160, "thorough": 5000},
+		Runs: map[string]int{"quick": 320, "thorough": 5000},
 		Rule: "per run: seeded writer history; at the final commit, for SelectDone, Table.Scan, Index.Scan, WITHOUT ROWID scans, ScanMin, ScanEq, ScanRange: the callback asks to stop after k rows for every k (exhaustive <=500 rows, else the last row of each leaf, each interior index entry and their neighbours from the page walker plus 100 drawn); exactly k callbacks, rows equal to the first k of the full result, nil error, and for SelectDone no POSIX lock of this process left on the file (/proc/locks); evaluations = stopped scans; non-trivial = stopped before the end; distinct = distinct event logs",
 		Real: append([]string{"unix file pager on real files, real kernel lock table read from /proc/locks"}, realAll...), Stub: []string{},
 		Assumptions: []string{"fault-free configuration"},
